@@ -218,6 +218,24 @@ def _laws(case):
             for pm in perms:
                 a = arrs()
                 law("%s-input-order" % op, _same(_ex(op, [a[i] for i in pm]), base, 1e-12), "perm %r" % (pm,))
+    # results returned EARLIER in this case must still hold their values after all the later operator calls (no result may live in
+    # a buffer that a later command reuses): recompute on pristine copies and compare with the objects returned before
+    earlier = [("FuzzyOr", {}, Or), ("FuzzyAnd", {}, And), ("FuzzyUnion", {}, Un), ("FuzzySelectedUnion", {"TruestOrFalsest": "Truest", "NumberToConsider": 1}, su("Truest", 1)),
+               ("FuzzySelectedUnion", {"TruestOrFalsest": "Falsest", "NumberToConsider": 1}, su("Falsest", 1)),
+               ("FuzzySelectedUnion", {"TruestOrFalsest": "Truest", "NumberToConsider": n}, su("Truest", n))]
+    if n >= 2:
+        earlier.append(("FuzzyXOr", {}, _ex("FuzzyXOr", arrs())))
+    at_return = [(r_[1].copy() if r_[0] == "ok" and hasattr(r_[1], "copy") else None) for _, _, r_ in earlier]
+    # interleave calls of the stacking operators on DIFFERENT data of the same shape
+    other = [D.mk_array(list(reversed(c))) for c in cols]
+    for op_, pr_ in (("FuzzySelectedUnion", {"TruestOrFalsest": "Falsest", "NumberToConsider": 1}), ("FuzzySelectedUnion", {"TruestOrFalsest": "Truest", "NumberToConsider": n}),
+                     ("FuzzyOr", {}), ("FuzzyUnion", {})) + ((("FuzzyXOr", {}),) if n >= 2 else ()):
+        _ex(op_, list(other), pr_)
+    for (op_, pr_, res_), snap_ in zip(earlier, at_return):
+        if snap_ is not None:
+            law("%s-result-stable-after-later-calls" % op_, _same(res_, ("ok", snap_), 0.0), "params %r: the returned array changed when later commands ran" % (pr_,))
+        fresh = _ex(op_, [x.copy() for x in pristine], pr_)
+        law("%s-result-equals-recomputation" % op_, _same(("ok", snap_) if snap_ is not None else res_, fresh, 0.0), "params %r" % (pr_,))
     # second pass over every operator on the shared inputs: same results as on pristine copies
     for op, params in (("FuzzyOr", {}), ("FuzzyAnd", {}), ("FuzzyUnion", {}), ("FuzzyXOr", {}), ("FuzzyWeightedUnion", {"Weights": [1] + [0.5] * (n - 1)}),
                        ("FuzzyWeightedUnion", {"Weights": [2] * n}), ("FuzzySelectedUnion", {"TruestOrFalsest": "Truest", "NumberToConsider": 1}),
